@@ -83,4 +83,77 @@ def check_C02(run):
                 evaluations=s["observations"], distinct_nontrivial=s["distinct"], exhaustive=True)
 
 
-CHECKS = {"C01": check_C01, "C02": check_C02}
+# ---------------------------------------------------------------------------
+# C03  v3 environmental score
+# ---------------------------------------------------------------------------
+def check_C03(run):
+    gen.ensure(run, ["v3envinner"], force=not run.quick)   # MC_V3Env: 16,128 exact evaluations + invariants
+    gen.ensure(run, ["v3enveff", "v3temporal", "v3base"])
+    args = ["v3env"]
+    if not run.quick:
+        args += ["-full", "-decodes", "5000000", "-raw", "2000000"]
+    s, verdicts = record_and_validate(run, args, "Trace_V3", "v3env")
+    judge(run, verdicts)
+    x = s["extra"]
+    run.cov.update(x)
+    run.assumptions += ["harness composes TLC-emitted factor tables (Eff -> EnvInner -> TempOuter) for the part of the concrete product "
+                        "TLC does not see event by event; the composition is cross-checked by TLC on the raw sample",
+                        "harness binding of exported constants to specification codes (v3tab.go)"]
+    return dict(level=MC, rule="(a) all 331,776 effective-value combinations x 100 temporal combinations by field assignment, each inner "
+                "score validated by TLC and the outer step validated per distinct (version, inner, E, RL, RC, score) tuple; (b) the concrete "
+                "product with Not Defined Modified metrics (%s) judged by composition of TLC-emitted tables, a seeded raw subset and every "
+                "disagreement validated by TLC; (c) seeded random vectors through Decode with permuted/omitted tokens; distinct = distinct observation"
+                % ("whole product" if x["concrete_product_full"] else "seeded sample"),
+                evaluations=s["observations"], distinct_nontrivial=s["distinct"], exhaustive=bool(x["concrete_product_full"]))
+
+
+# ---------------------------------------------------------------------------
+# C04 / C05  v2 scores, with known finding KF-1
+# ---------------------------------------------------------------------------
+def kf1_matcher(pid):
+    kf = [f for f in vlib.load_known()["findings"] if f["id"] == "KF-1" and pid in f["properties"]]
+    if not kf:
+        return None
+    kf = kf[0]
+    keys = {"base": set(kf["base_keys"]), "adj": set(kf["adj_keys"])}
+
+    def known(v):
+        m = re.match(r"kf1:(base|adj) (\S+)$", v["kind"])
+        if m and m.group(2) in keys[m.group(1)]:
+            return "KF-1 %s [%s; sites: v2/metric/base.go Base.Score/Base.score, v2/metric/environmental.go Environmental.Score]" % (
+                kf["title"], "listed %s-equation keys" % m.group(1))
+        return None
+    return known
+
+
+def check_C04(run):
+    gen.ensure(run, ["v2tabs"], force=True)          # MC_V2: 270 + 2,268 exact evaluations + invariants
+    s, verdicts = record_and_validate(run, ["v2bt"], "Trace_V2", "v2bt")
+    judge(run, verdicts, known=kf1_matcher("C04"))
+    if s["distinct"] < 729 + 73629:
+        raise Infra("harness did not cover the whole base/temporal domain: %d" % s["distinct"])
+    run.cov["decodes"] = s["extra"]["decodes"]
+    run.assumptions += ["harness binding of exported constants to specification codes (v2tab.go)"]
+    return dict(level=MC, rule="all 729 base vectors x (100 temporal combinations + group absent) = 73,629 vectors through the Base, Temporal and "
+                "Environmental decoders (environmental group absent and present); every distinct observation validated by TLC: observed tenth in "
+                "the set the FIRST equations admit (exact halves may go either way)",
+                evaluations=s["observations"], distinct_nontrivial=s["distinct"], exhaustive=True)
+
+
+def check_C05(run):
+    gen.ensure(run, ["v2tabs"], force=not run.quick)
+    args = ["v2env", "-decodes", "600000" if run.quick else "20000000"]
+    s, verdicts = record_and_validate(run, args, "Trace_V2", "v2env")
+    judge(run, verdicts, known=kf1_matcher("C05"))
+    run.cov.update(s["extra"])
+    run.assumptions += ["the outer steps (temporal multipliers, CDP, TD) are validated as tuples relative to the adjusted base score the library "
+                        "itself exposes with the temporal group absent and CDP:ND/TD:ND; that score is validated against the exact equation for all "
+                        "46,656 (base, CR, IR, AR) combinations",
+                        "harness binding of exported constants to specification codes (v2tab.go)"]
+    return dict(level=MC, rule="whole v2 environmental domain 729 x 101 x 1,920 by field assignment on decoded carriers: stage 1 = adjusted base "
+                "score of every (base, CR, IR, AR), stage 2 = every (adjusted base, temporal, CDP, TD, score) tuple; plus seeded random vectors of "
+                "all group patterns through Decode; distinct = distinct observation",
+                evaluations=s["extra"]["assigned_evaluations"] + s["extra"]["decoded"], distinct_nontrivial=s["distinct"], exhaustive=True)
+
+
+CHECKS = {"C04": check_C04, "C05": check_C05, "C03": check_C03, "C01": check_C01, "C02": check_C02}
